@@ -23,7 +23,7 @@ def plan(tier, seed):
     chunks += [{'kind': 'pipeline', 'n': n} for n in ((3, 4) if tier == 'quick' else (3, 4, 5))]
     chunks += [{'kind': 'reader', 'sep': sep, 'maxlen': 3 if tier == 'quick' else 4} for sep in SEPS]
     return {
-        'chunks': chunks,
+        'chunks': chunks + [{'kind': 'clipipe'}],
         'rule': 'every string of <= %d atoms over %r, parsed with gf separator absent/-/#; '
                 'formatted with every subset of always_label/always_gf; every single component '
                 'emptied; plus get_label on every combination of node kind x edge x flags x all '
@@ -31,7 +31,8 @@ def plan(tier, seed):
                 'index, marker or default literal' % (L, ATOMS, 3 if tier == 'quick' else 4, 4 if tier == 'quick' else 5),
         'bound': 'strings of <= %d atoms (alphabet of %d atoms)' % (L, len(ATOMS)),
         'exhaustive': True,
-        'assumptions': ['labels contain no whitespace'],
+        'assumptions': ['driver differential (vt/clipipe.py): `treetools transform` with the pipelines that involve this operation, with and without --split, on a six-sentence corpus must write what the named functions give when applied by the harness in the given order',
+                        'labels contain no whitespace'],
     }
 
 
@@ -246,6 +247,9 @@ def check_readers(sepopt, maxlen, only=None):
 
 
 def check_case(case):
+    if 'clipipe' in case:
+        from .. import clipipe
+        return clipipe.replay(case)
     with quiet():
         if case.get('pipeline'):
             from . import c05
@@ -273,6 +277,11 @@ def strings(chunk):
 
 
 def run_chunk(chunk):
+    if chunk.get('kind') == 'clipipe':
+        from .. import clipipe
+        res = Result()
+        clipipe.run_property(ID, res)
+        return res
     res = Result()
     with quiet():
         if chunk['kind'] == 'reader':
